@@ -106,8 +106,50 @@ def run(ctx):
     ok = len(goc) >= 3 and all(len(c.args) >= 4 and src(c.args[3]) == "{'is_valid': True}" for c in goc)
     r3.check(ok, f"{db.rel}:RedunBackendDb.advance_handle:valid", "handle states created by advance_handle are not recorded as valid", db.rel, ah.lineno)
     he = [c for c in calls_in(ah) if call_name(c) == "get_or_create" and len(c.args) >= 2 and src(c.args[1]) == "HandleEdge"]
-    ok = len(he) == 1 and "'parent_id': parent_handle.__handle__.hash" in src(he[0]) and "'child_id': child_handle.__handle__.hash" in src(he[0])
+    ok = any("'parent_id': parent_handle.__handle__.hash" in src(c) and "'child_id': child_handle.__handle__.hash" in src(c) for c in he)
     r3.check(ok, f"{db.rel}:RedunBackendDb.advance_handle:edge", "advance_handle does not record the parent->child lineage edge", db.rel, ah.lineno)
+    # forks: a state created by handle.fork(key) derives from the forked state.  advance_handle back-fills Handle rows along the
+    # `fork_parent` chain of unrecorded parents; each such derivation needs its own lineage edge, or a rollback of the original never reaches the fork.
+    tainted: set[str] = set()
+    changed = True
+    while changed:
+        changed = False
+        for n in ast.walk(ah):
+            tgt, val = None, None
+            if isinstance(n, ast.Assign):
+                tgt, val = n.targets[0], n.value
+            elif isinstance(n, (ast.For, ast.comprehension)):
+                tgt, val = n.target, n.iter
+            elif isinstance(n, ast.Expr) and isinstance(n.value, ast.Call) and isinstance(n.value.func, ast.Attribute) and n.value.func.attr in ("append", "extend") and isinstance(n.value.func.value, ast.Name):
+                tgt, val = n.value.func.value, n.value
+            if tgt is None:
+                continue
+            if "fork_parent" in src(val) or any(isinstance(x, ast.Name) and x.id in tainted for x in ast.walk(val)):
+                for x in ast.walk(tgt):
+                    if isinstance(x, ast.Name) and x.id not in tainted:
+                        tainted.add(x.id)
+                        changed = True
+    backfills = [c for c in goc if any(isinstance(x, ast.Name) and x.id in tainted for x in ast.walk(c))]
+    fork_edges = []
+    for c in he:
+        d = next((a for a in c.args if isinstance(a, ast.Dict)), None)
+        if d is None:
+            continue
+        pv = next((v for k, v in zip(d.keys, d.values) if k is not None and src(k) == "'parent_id'"), None)
+        if pv is not None and ("fork_parent" in src(pv) or any(isinstance(x, ast.Name) and x.id in tainted for x in ast.walk(pv))):
+            fork_edges.append(c)
+    if backfills:
+        r3.check(
+            bool(fork_edges),
+            f"{db.rel}:RedunBackendDb.advance_handle:fork-edge",
+            "advance_handle back-fills Handle rows for the `fork_parent` chain of its parents but records no HandleEdge from a fork parent to its fork: a state produced by "
+            "handle.fork(key) is not a descendant of the forked state in the lineage graph, so rolling back (re-deriving) the original leaves the fork and every cached result "
+            "containing it valid and replayable",
+            db.rel,
+            backfills[0].lineno,
+        )
+    else:
+        r3.good(f"{db.rel}:RedunBackendDb.advance_handle:fork-edge", "no fork back-fill in advance_handle")
     rh = db.func("RedunBackendDb.rollback_handle")
     t = src(rh)
     ok = "Handle.fullname == handle.__handle__.fullname" in t and "Handle.is_valid.is_(True)" in t and "lookups[handle.__handle__.hash]" in t and "queue.extend(lookups[handle_hash])" in t and "{Handle.is_valid: False}" in t
